@@ -227,6 +227,7 @@ class Check(FormulaCheck):
             # text: case-insensitive, wildcards
             words = self.mkarray(rnd, rnd.randint(1, 8), 'text')
             words = [w for w in words if w] or ['apple']
+            pristine = list(words)            # an independent copy: the array handed to the library is the host's own object
             a_txt, how = self.inject(words, rnd)
             w = rnd.choice(words)
             k = rnd.random()
@@ -247,9 +248,12 @@ class Check(FormulaCheck):
             g = self.ev('MATCH(%s,%s,0)' % (hx.strlit(pat), a_txt))
             self.expect('C18/MATCH-text' + (':wildcard' if ('*' in pat or '?' in pat) else ':case'), g == exp, array=words, pattern=pat, got=g, expected=exp)
             rec.nt(('mt', tuple(words), pat))
+            self.expect('C18/MATCH-mutates-its-array', words == pristine, array=pristine, after=words, pattern=pat, injected=how)
             if exp != 'ERR:#N/A' and '*' not in pat and '?' not in pat:
                 g = self.ev('INDEX(%s,MATCH(%s,%s,0))' % (a_txt, hx.strlit(pat), a_txt))
-                self.expect('C18/INDEX(MATCH)=x', isinstance(g, str) and g.lower() == pat.lower(), array=words, x=pat, got=g)
+                # the element itself comes back, spelled as the host spelled it (the lookup is case-insensitive, the array is not rewritten)
+                self.expect('C18/INDEX(MATCH)=x', isinstance(g, str) and g == pristine[exp - 1], array=pristine, x=pat, got=g, expected=pristine[exp - 1])
+                words[:] = pristine
             rec.sample({'array': vals, 'lookup': x})
 
     # ------------------------------------------------------------------ CHOOSE
